@@ -76,6 +76,17 @@ func oracleC15(p *Pair, env *Env, a [][]byte) *Failure {
 	outside := Tree{"outer/other.conf": []byte("# OWASP CRS ver.1.0.0\n"), "outer/x.ra": []byte("  a  \n"), "outer/tests/regression/tests/R/920100.yaml": []byte("  - test_id: 9\n"), "beside/rules/REQUEST-942-X.conf": []byte("SecRule ARGS \"@rx z\" \\\n \"id:942100\"\n"),
 		"beside/tests/regression/tests/R/942100.yaml": []byte("  - test_id: 5\n  - test_id: 5\n"), "beside/crs-setup.conf.example": []byte("# OWASP CRS ver.1.0.0\n# Copyright (c) 2021-2022 CRS project. All rights reserved.\n")}
 	_ = outside.write(sb)
+	if strings.HasSuffix(mode, "+ro") {
+		// every file of the tree is read-only (a checkout made so on purpose): a command that only inspects leaves the
+		// modes alone as well
+		mode = strings.TrimSuffix(mode, "+ro")
+		_ = filepath.Walk(root, func(p string, info os.FileInfo, err error) error {
+			if err == nil && info.Mode().IsRegular() {
+				_ = os.Chmod(p, 0o444)
+			}
+			return nil
+		})
+	}
 	cwd := root
 	full := append([]string{"-l", "disabled"}, argv...)
 	switch mode {
@@ -142,7 +153,7 @@ func genC15(r *rand.Rand, tier string, env *Env) []Case {
 			[]string{"regex", "generate", "999999"}, []string{"regex", "update", "999999"}, []string{"regex", "compare", "999999"},
 			[]string{"util", "renumber-tests", "-c", "999999"}, []string{"util", "renumber-tests", "999999"})
 		for _, c := range cmds {
-			mode := pick(r, []string{"cwd", "cwd", "d-root", "d-sub", "d-rel", "d-parent", "d-beside"})
+			mode := pick(r, []string{"cwd", "cwd", "d-root", "d-sub", "d-rel", "d-parent", "d-beside", "cwd+ro", "d-root+ro", "d-sub+ro"})
 			kind := regexp.MustCompile(`\d{6}(-chain\d+)?|words\d+`).ReplaceAllString(strings.Join(c, " "), "TARGET")
 			cases = append(cases, Case{Kind: "cmd:" + kind,
 				Oracles: []Op{{"c15.writeset", [][]byte{encodeTree(ct.t), []byte(strings.Join(c, "\x00")), []byte(mode)}}}})
@@ -288,6 +299,24 @@ func faultList() []fault {
 
 var reLooksLikeRegex = regexp.MustCompile(`\S`)
 
+// linkAssemblyFiles moves every *.ra file below regex-assembly to <sandbox>-linked/ (beside the tree, so that snapshots of
+// the tree see the files through their links only) and leaves a symbolic link in its place
+func linkAssemblyFiles(sb string) {
+	n := 0
+	_ = os.MkdirAll(sb+"-linked", 0o755)
+	_ = filepath.Walk(filepath.Join(sb, "regex-assembly"), func(p string, info os.FileInfo, err error) error {
+		if err != nil || !info.Mode().IsRegular() || !strings.HasSuffix(p, ".ra") {
+			return nil
+		}
+		n++
+		target := filepath.Join(sb+"-linked", fmt.Sprintf("%d.data", n))
+		if os.Rename(p, target) == nil {
+			_ = os.Symlink(target, p)
+		}
+		return nil
+	})
+}
+
 // args: tree JSON (already faulty), argv, names of assembly files in walk order (NUL separated), faulty file path
 func oracleC16(p *Pair, env *Env, a [][]byte) *Failure {
 	t := decodeTree(a[0])
@@ -296,6 +325,11 @@ func oracleC16(p *Pair, env *Env, a [][]byte) *Failure {
 	sb := mkSandbox(env)
 	defer os.RemoveAll(sb)
 	_ = t.write(sb)
+	if len(a) > 4 && string(a[4]) == "symlink" {
+		// every assembly file is a symbolic link to a file kept elsewhere in the checkout: a fault in it is a fault still
+		linkAssemblyFiles(sb)
+		defer os.RemoveAll(sb + "-linked")
+	}
 	before := snapshot(sb)
 	full := append([]string{"-l", "disabled"}, argv...)
 	c := runCLI(env, sb, nil, full...)
@@ -396,6 +430,10 @@ func genC16(r *rand.Rand, tier string, env *Env) []Case {
 			for _, c := range f.cmds(ra) {
 				cases = append(cases, Case{Kind: "fault:" + f.name, Ops: cliCmdOps(ct, c),
 					Oracles: []Op{{"c16.loud", [][]byte{encodeTree(ct.t), []byte(strings.Join(c, "\x00")), []byte(strings.Join(walkOrder(ct.t), "\x00")), []byte(faultyPath)}}}})
+				if _, stillThere := ct.t[ra.path]; stillThere && chance(r, 0.5) {
+					cases = append(cases, Case{Kind: "fault:" + f.name + "@symlink",
+						Oracles: []Op{{"c16.loud", [][]byte{encodeTree(ct.t), []byte(strings.Join(c, "\x00")), []byte(strings.Join(walkOrder(ct.t), "\x00")), []byte(faultyPath), []byte("symlink")}}}})
+				}
 				if chance(r, 0.35) {
 					// the other output mode reports through other code: a failure is a failure there too
 					g := append([]string{"-o", "github"}, c...)
